@@ -19,14 +19,15 @@ ASSUMPTIONS = ['brute-force reference matrices (vf/refmodel.valid_matrices)',
                'the two constraint-violation imputers are documented to flag instead of repair: "valid matrix" is replaced by '
                '"valid or flagged, and never flagged on a direct hit" for them',
                'declared spaces > 6000 (quick) / 20000 (thorough) vectors are skipped and counted (then exhaustive=false)']
-CHUNK = 1
-REQUIRED_FEATURES = {'*': ['eager', 'lazy', 'enum', 'pattern_ok', 'pattern_rejected', 'imputed', 'out_of_range', 'inactive_var']}
+CHUNK = 3
+REQUIRED_FEATURES = {'*': ['eager', 'lazy', 'enum', 'pattern_ok', 'pattern_rejected', 'imputed', 'out_of_range', 'inactive_var', 'previous_manager_rechecked', 'live_pair']}
 EXHAUSTIVE = True
 
 T5 = [('1', False), ('0..1', False), ('0..*', True), ('1..*', False), ('0,2', True)]
 T6 = T5 + [('1..2', True)]
 MAX_SPACE = {'quick': 6000, 'thorough': 20000}
 _TIER = ['quick']
+_PREV = {}   # (encoder factory, imputer) -> (previous manager, its decode arguments, its decode table, its case)
 
 
 def scope_text(tier):
@@ -53,6 +54,7 @@ def cases(tier, seed):
         for t in pairs:
             for ex in ex_variants:
                 yield dict(src=list(s), tgt=list(t), ex=ex, imputers='default')
+    yield from pair_cases()
     if tier != 'quick':
         T4 = [('1', False), ('0..1', False), ('0..*', True), ('1..*', False)]
         for s in itertools.combinations_with_replacement(T4, 2):
@@ -63,6 +65,68 @@ def cases(tier, seed):
             for t in pairs:
                 yield dict(src=list(s), tgt=list(t), ex='none', imputers='default', excl=[[0, 1]])
                 yield dict(src=list(s), tgt=list(t), ex='tgtL', imputers='default', excl=[[1, 0]])
+
+
+REP1 = [('0..*', True), ('1..*', True), ('1..2', True), ('0..2', True), ('2..*', True)]
+
+
+def pair_cases():
+    """two different 1x1 settings handled by two LIVE instances of the same encoder factory (state shared between instances)"""
+    singles = [dict(src=[a], tgt=[b], ex='none', imputers='default') for a in REP1 for b in REP1]
+    for i, a in enumerate(singles):
+        for j, b in enumerate(singles):
+            if i != j:
+                yield dict(kind='pair', first=a, second=b)
+
+
+def run_pair(case):
+    from adsg_core.optimization.assign_enc.matrix import MatrixGenSettings
+    from adsg_core.optimization.assign_enc.assignment_manager import AssignmentManager, LazyAssignmentManager
+    from adsg_core.optimization.assign_enc.patterns.encoder import InvalidPatternEncoder
+    from adsg_core.optimization.assign_enc.lazy_encoding import LazyEncoder
+    res = dict(evals=0, states=0, trans=0, nontrivial=True, features={'live_pair': 1}, violations=[])
+    encs, er = registry()
+
+    def build(st_case, factory, imp):
+        settings = MatrixGenSettings([c09._node(t) for t in st_case['src']], [c09._node(t) for t in st_case['tgt']])
+        enc = factory(imp())
+        return (LazyAssignmentManager if isinstance(enc, LazyEncoder) else AssignmentManager)(settings, enc)
+
+    def table(mgr):
+        n_o = [dv.n_opts for dv in mgr.design_vars]
+        out = []
+        for x in itertools.product(*[range(k) for k in n_o]):
+            try:
+                xi, act, M = mgr.get_matrix(list(x))
+                out.append((x, [int(v) for v in xi], [bool(a) for a in act], tup(M)))
+            except Exception as e:
+                out.append((x, 'EXC', type(e).__name__))
+        return out
+
+    for kind, idx, factory in encs:
+        imp = er.EAGER_IMPUTERS[1] if kind == 'eager' else er.LAZY_IMPUTERS[1]
+        try:
+            a = build(case['first'], factory, imp)
+            ta = table(a)
+        except InvalidPatternEncoder:
+            continue
+        except Exception:
+            continue   # reported by the single-setting cases
+        try:
+            b = build(case['second'], factory, imp)
+            table(b)
+        except Exception:
+            pass
+        res['evals'] += 1
+        res['states'] += 1
+        res['trans'] += len(ta)
+        ta2 = table(a)
+        if ta2 != ta:
+            d = [(u, v) for u, v in zip(ta, ta2) if u != v][:1]
+            res['violations'].append(dict(kind='older-encoder-instance-changed-by-newer-one',
+                                          case=dict(case, encoder=f'{kind}{idx}'), detail=dict(first_difference=d)))
+    res['sample'] = case
+    return res
 
 
 def worker_init(tier, seed):
@@ -261,6 +325,8 @@ def check_manager(mgr, dvs, case, pats, existences, refs, res, viol, is_violatio
 
 
 def run_case(case):
+    if case.get('kind') == 'pair':
+        return run_pair(case)
     from adsg_core.optimization.assign_enc.matrix import MatrixGenSettings, NodeExistence, NodeExistencePatterns
     from adsg_core.optimization.assign_enc.assignment_manager import AssignmentManager, LazyAssignmentManager
     from adsg_core.optimization.assign_enc.patterns.encoder import InvalidPatternEncoder
@@ -314,7 +380,40 @@ def run_case(case):
             except Exception as e:
                 viol('encoder-construction-raised', dict(exc=(type(e).__name__, str(e)[:200])))
                 continue
+            # persistence of encoder objects: the manager built for the PREVIOUS settings by the same factory is decoded
+            # again now that another instance exists (state shared between instances shows up here)
+            prev = _PREV.get((kind, idx, i_imp))
+            if prev is not None:
+                pm, pargs, ptable, pcase = prev
+                feats['previous_manager_rechecked'] = feats.get('previous_manager_rechecked', 0) + 1
+                for (x, ex_arg), exp in zip(pargs, ptable):
+                    try:
+                        xi, act, M = pm.get_matrix(list(x), existence=ex_arg)
+                        got = ([int(v) for v in xi], [bool(a) for a in act], tup(M))
+                    except Exception as e:
+                        got = ('EXC', type(e).__name__)
+                    res['trans'] += 1
+                    if got != exp:
+                        res['violations'].append(dict(kind='older-encoder-instance-changed-by-newer-one',
+                                                      case=dict(pcase, encoder=label, then=dict(src=case['src'], tgt=case['tgt'], ex=case['ex'])),
+                                                      detail=dict(x=x, before=exp, after=got)))
+                        break
             check_manager(mgr, dvs, case, pats, existences, refs, res, viol, is_violation_imputer=is_violation_imputer,
                           kind=kind, max_space=MAX_SPACE[_TIER[0]])
+            try:
+                n_o = [dv.n_opts for dv in dvs]
+                if 0 < len(n_o) and int(np.prod(n_o)) <= 64:
+                    args, table = [], []
+                    for existence, ref in zip(existences, refs):
+                        if not ref:
+                            continue
+                        ex_arg = existence if case['ex'] != 'none' else None
+                        for x in itertools.product(*[range(k) for k in n_o]):
+                            xi, act, M = mgr.get_matrix(list(x), existence=ex_arg)
+                            args.append((x, ex_arg))
+                            table.append(([int(v) for v in xi], [bool(a) for a in act], tup(M)))
+                    _PREV[(kind, idx, i_imp)] = (mgr, args, table, dict(src=case['src'], tgt=case['tgt'], ex=case['ex'], imputers=case['imputers']))
+            except Exception:
+                _PREV.pop((kind, idx, i_imp), None)
     res['sample'] = dict(case=case, n_patterns=len(pats), ref_sizes=[len(r) for r in refs])
     return res
